@@ -449,7 +449,7 @@ func genScenario(r *vlib.Rand, id int) *scenario {
 		}
 		// index arithmetic across 2^31 (rare, dedicated)
 		if s.Bip39 != -1 && r.Intn(12) == 0 {
-			s.KeyCnt = 3 + r.Intn(3)
+			s.KeyCnt = 2 + r.Intn(4) // 2 = the valid neighbour: the last key sits exactly on index 2^31-1
 			h := ""
 			if r.Bool() {
 				h = "'"
@@ -460,7 +460,7 @@ func genScenario(r *vlib.Rand, id int) *scenario {
 				s.HDPath = fmt.Sprintf("m/%d'/%d%s", r.Intn(3), 0x7fffffff-1, h)
 			} else {
 				s.Overflow = "sub"
-				s.HDSubs = 3
+				s.HDSubs = 2 + r.Intn(2) // 2 = the valid neighbour
 				s.HDPath = fmt.Sprintf("m/%d%s/%d", 0x7fffffff-1, h, r.Intn(5))
 			}
 		}
@@ -838,6 +838,12 @@ func runScenario(bin, dir string, sc *scenario) (o scOutcome) {
 		b, _ := os.ReadFile(filepath.Join(d, "wallet.txt"))
 		txts[k] = string(b)
 		o.counts["process_runs"]++
+	}
+	if outs[0].exit != 0 && len(exp.invalidIdx) > 0 && strings.Contains(outs[0].stderr, "exceeds the BIP32 index range") && txts[0] == "" {
+		// the configuration asks for child numbers beyond 2^31-1 of their kind: refusing it (nothing listed) is the
+		// correct outcome (since the repair in /repo; listing such keys is class hd-index-overflow/*)
+		o.counts["overflow_scenarios_refused"]++
+		return
 	}
 	if outs[0].exit != 0 {
 		// triage: the wallet verifies every key pair while listing and aborts on a bad one; is it
